@@ -9,6 +9,7 @@ import (
 	"sort"
 
 	"verifharness/common"
+	_ "verifharness/engines/beaconstore"
 	_ "verifharness/engines/headerproof"
 	_ "verifharness/engines/history"
 	_ "verifharness/engines/lightclient"
